@@ -437,13 +437,22 @@ func c14Closures(c *core.Ctx) {
 func c14CondClosures(c *core.Ctx) {
 	r := c.Rng
 	incomplete := r.Chance(1, 4)
+	missing := r.Intn(4)
 	cparen, cnopad, cencap := r.Chance(1, 3), r.Chance(1, 4), r.Chance(1, 4)
 	build := func() stackage.Condition {
 		var cd stackage.Condition
 		if incomplete {
-			// keyword and operator only: the built-in rule rejects it, an accepting validity closure decides otherwise
+			// keyword and operator only (or keyword and expression only, or nothing at all): the built-in rule rejects
+			// it, an accepting validity closure decides otherwise - and whatever it decides, no call may panic
 			cd.Init()
-			cd.SetKeyword("kw").SetOperator(stackage.Eq)
+			switch missing {
+			case 0:
+				cd.SetKeyword("kw").SetOperator(stackage.Eq)
+			case 1:
+				cd.SetKeyword("kw").SetExpression("val")
+			case 2:
+				cd.SetOperator(stackage.Eq).SetExpression("val")
+			}
 		} else {
 			cd = stackage.Cond("kw", stackage.Eq, "val")
 		}
